@@ -145,7 +145,55 @@ def check_roundtrip(ex, only_last=False):
                 scope[j] = None
             scope[lvl] = c[1]
             depth = lvl
+    if not v and _has_nested_meta(ex.calls):
+        v.extend(_reread_after_edits(ex))
     return v
+
+
+def _has_nested_meta(calls):
+    for c in calls:
+        if c[0] == 'meta' and isinstance(c[1], dict) and any(
+                isinstance(x, (dict, list)) and x for x in c[1].values()):
+            return True
+    return False
+
+
+def _vandalise_deep(o, depth=0):
+    """Edit every nested container in place."""
+    if isinstance(o, dict):
+        for k in list(o):
+            _vandalise_deep(o[k], depth + 1)
+        if depth:
+            o['edited-by-consumer'] = depth
+    elif isinstance(o, list):
+        for x in o:
+            _vandalise_deep(x, depth + 1)
+        o.append('edited-by-consumer')
+
+
+def _reread_after_edits(ex):
+    """What a consumer does to records it was given (here: editing every
+    nested value of every metadata in place) must not show up when the
+    same bytes are read again, by this or by another reader."""
+    import copy
+    want = [copy.deepcopy(r.get('metadata')) for r in ex.recs]
+    for r in ex.recs:
+        if isinstance(r.get('metadata'), dict):
+            _vandalise_deep(r['metadata'])
+    recs2, rerr2, _, _ = read_all(ex.data)
+    if rerr2 is not None:
+        return [('reread-raised:%s:%s' % (type(rerr2).__name__,
+                                          site_of(rerr2)), repr(rerr2))]
+    got = [r.get('metadata') for r in recs2]
+    if not typed_eq(got, want):
+        i = next((k for k, (a, b) in enumerate(zip(got, want))
+                  if not typed_eq(a, b)), 0)
+        return [('reread-sees-consumer-edits:metadata',
+                 'after the consumer edited nested metadata values of the '
+                 'first read in place, a second read of the same bytes '
+                 'returned %r for section %d, expected %r'
+                 % (_short(got[i]), i, _short(want[i])))]
+    return []
 
 
 def _cmp(v, kind, rec, exp):
